@@ -16,13 +16,14 @@ from harness import C38_plan_template as T
 WORKERS = 6
 SRC = 'hail/python/hail/vds/combiner/variant_dataset_combiner.py'
 ENCODED = {
-    'VariantDatasetCombiner': ['__init__', 'finished', 'save', 'load', '_raise_if_output_exists', 'to_dict',
+    'VariantDatasetCombiner': ['__init__', 'finished', 'save', 'run', 'load', '_raise_if_output_exists', 'to_dict',
                                '_num_vdses', 'step', '_write_final', '_step_vdses', '_step_gvcfs', '_temp_out_path',
                                '_read_variant_datasets'],
     'Encoder': ['default'],
     'Decoder': ['__init__', '_object_hook'],
     'VDSMetadata': None,
     'CombinerOutType': None,
+    'load_combiner': None,
 }
 
 ASSUMPTIONS = (
@@ -66,11 +67,40 @@ ASSUMPTIONS = (
     'constructors hl.Struct, hl.Interval, hl.tstruct, hl.tarray, hl.tinterval only ever receive concrete interval/'
     'locus objects and also run with tracing off',
     'C38(b): CrossHair path exploration is exhaustive when it reports "Confirmed over all paths"',
+    'C38(b) fault family: a fault is an exception raised by ONE engine-leaf call of the run (hl.vds.read_vds, '
+    'calculate_new_intervals, combine_variant_datasets, VariantDataset.write of an intermediate or of the final output, '
+    'each dataset of hl.vds.write_variant_datasets, hl.vds.store_ref_block_max_length, hl.eval of the vcf header, the '
+    'sample-id Table.aggregate, the gvcf import + VariantDataset(...) construction); the failing call is the symbolic '
+    'index fi counted over the whole run, at most one fault per run; the exception is OSError or Interrupt, a '
+    'BaseException subclass standing for KeyboardInterrupt/SystemExit (the real ones are not raised under CrossHair); a '
+    'failing write leaves no dataset at its path and datasets written earlier in the same call stay; plan-file '
+    'operations (save) do not fail; a partially written dataset directory is not modelled',
+    'C38(b) fault family: the combiner is driven through the REAL VariantDatasetCombiner.run() (hl._get_flags / '
+    'hl._set_flags are a dict); the state on disk after the fault is whatever the real code saved; the resume is the real '
+    'module-level load_combiner(save_path) followed by the real run() with no further fault (if no plan file exists the '
+    'combiner is constructed again from the original arguments and _raise_if_output_exists() is called, as '
+    'hl.vds.new_combiner does; if load_combiner raises FatalError "combiner output '
+    'already exists ... move or delete it before continuing" the output dataset is deleted, as the message says, and the '
+    'plan is loaded again); non-termination = more plan saves than inputs + 10 or more engine calls than '
+    '16*(inputs+8)+8*inputs^2 in one run()',
+    'C38(b) fault family: run() serialises the plan before the first step, which makes every number concrete, so '
+    'branch_factor, gvcf_batch_size and every n_samples are case-split up front (one CrossHair path per value), checked '
+    'to be plain ints, and the real code then runs with CrossHair tracing off; the comparison "is this engine call the '
+    'failing one" and the fault kind are evaluated with tracing resumed, so CrossHair forks exactly once per engine '
+    'call of the run (every crash point of every realised input is a path)',
 )
 
 
-def cfg(n, m, hdr, resume, smax, bf=None):
-    return {'N': n, 'M': m, 'hdr': hdr, 'resume': resume, 'smax': smax if m else 0, 'bf': bf}
+def cfg(n, m, hdr, resume, smax, bf=None, fault=False, bsmax=3):
+    return {'N': n, 'M': m, 'hdr': hdr, 'resume': resume, 'smax': smax if m else 0, 'bf': bf, 'fault': fault,
+            'bsmax': bsmax}
+
+
+def fcfg(n, m, hdr, smax, bf=None, bsmax=3):
+    """Fault family: real run() + one engine fault + load_combiner().run().  `bsmax` < 3 narrows gvcf_batch_size (used
+    for vds-only shapes in the quick tier: the batch size takes part in no decision there, but run() serialises it, so
+    every value costs a full set of paths)."""
+    return cfg(n, m, hdr, False, smax, bf, fault=True, bsmax=bsmax)
 
 
 def configs(tier):
@@ -82,25 +112,30 @@ def configs(tier):
 
 # (N gvcfs, M vdses, external header?, resume?, smax, branch factor shard) - measured CPU seconds in comments
 QUICK = [
-    cfg(1, 2, True, False, 40, 2),  # ~30
-    cfg(1, 2, True, False, 40, 3),
-    cfg(1, 2, True, False, 40, 4),
-    cfg(0, 3, True, False, 8),
+    fcfg(0, 5, True, 2, 2, bsmax=1),  # 33  (the 5-vds, branch factor 2 shape: four vds steps)
+    fcfg(0, 4, True, 2, 2, bsmax=1),  # 19
+    fcfg(0, 3, True, 2, bsmax=1),     # 11
+    cfg(1, 2, True, False, 40, 2),  # 30
+    fcfg(2, 2, True, 2),           # 23
+    fcfg(1, 2, False, 2),          # 22
+    cfg(0, 3, True, False, 8),     # 25
     cfg(1, 1, True, True, 4),      # 21
     cfg(0, 2, True, True, 3),      # 18
-    cfg(4, 0, False, True, 0),     # 8
+    fcfg(1, 1, True, 4),           # 18
     cfg(2, 1, False, False, 40),   # 13
     cfg(1, 1, False, False, 40),   # 15
     cfg(0, 2, True, False, 40),    # 14
     cfg(2, 1, True, True, 2),      # 13
+    fcfg(2, 1, False, 2),          # 13
     cfg(0, 1, True, True, 4),      # 17
     cfg(6, 0, True, True, 0),      # 13
+    fcfg(4, 0, False, 0),          # 10
+    fcfg(6, 0, False, 0),          # 10
+    fcfg(3, 0, True, 0),           # 9
     cfg(3, 0, False, True, 0),     # 9
-    cfg(5, 0, False, False, 0),
+    cfg(4, 0, False, True, 0),     # 8
     cfg(2, 0, True, True, 0),
     cfg(1, 0, False, True, 0),
-    cfg(3, 0, True, False, 0),
-    cfg(4, 0, True, False, 0),
 ]
 
 
@@ -117,7 +152,6 @@ def _thorough():
     t += [(cfg(0, 6, H, S, 2, 2), 22), (cfg(0, 6, H, S, 2, 3), 12), (cfg(0, 6, H, S, 2, 4), 10)]
     t += [(cfg(1, 1, F, S, 40), 15), (cfg(1, 1, H, S, 40), 15), (cfg(2, 1, F, S, 40), 13), (cfg(2, 1, H, S, 40), 13)]
     t += [(cfg(1, 2, H, S, 40, 2), 30), (cfg(1, 2, H, S, 40, 3), 20), (cfg(1, 2, H, S, 40, 4), 15)]
-    t += [(cfg(1, 3, H, S, 8, 2), 150), (cfg(1, 3, H, S, 8, 3), 30), (cfg(1, 3, H, S, 8, 4), 20)]
     t += [(cfg(2, 2, F, S, 40), 60), (cfg(2, 2, H, S, 40), 60)]
     t += [(cfg(3, 1, H, S, 40), 13), (cfg(3, 1, F, S, 40), 13), (cfg(3, 2, H, S, 40), 93)]
     t += [(cfg(3, 3, H, S, 4, 2), 48), (cfg(3, 3, H, S, 4, 3), 20), (cfg(3, 3, H, S, 4, 4), 15)]
@@ -132,6 +166,14 @@ def _thorough():
     t += [(cfg(0, 3, H, R_, 2, 2), 28), (cfg(0, 3, H, R_, 3, 3), 36), (cfg(0, 3, H, R_, 3, 4), 36)]
     t += [(cfg(1, 2, F, R_, 3), 124), (cfg(2, 2, H, R_, 2), 34), (cfg(3, 1, F, R_, 3), 33), (cfg(4, 1, F, R_, 3), 38)]
     t += [(cfg(5, 1, H, R_, 2), 66), (cfg(3, 2, F, R_, 2), 114)]
+    # ---- real run() + one engine fault at any call + load_combiner().run() ----------------------------------------------
+    t += [(fcfg(0, 3, H, 4, 2), 88), (fcfg(0, 3, H, 4, 3), 60), (fcfg(0, 3, H, 4, 4), 60), (fcfg(0, 3, H, 2), 32)]
+    t += [(fcfg(0, 4, H, 2), 86), (fcfg(0, 5, H, 2, 2), 99), (fcfg(0, 5, H, 2, 3), 70), (fcfg(0, 5, H, 2, 4), 70)]
+    t += [(fcfg(0, 6, H, 2, 3), 173), (fcfg(0, 1, H, 8), 8), (fcfg(0, 2, H, 4), 15)]
+    t += [(fcfg(1, 1, H, 4), 18), (fcfg(1, 1, F, 4), 18), (fcfg(1, 2, F, 2), 22), (fcfg(2, 1, F, 2), 13), (fcfg(2, 1, H, 2), 13)]
+    t += [(fcfg(2, 2, H, 2), 23), (fcfg(3, 1, F, 2), 14), (fcfg(4, 1, H, 2), 16), (fcfg(5, 1, F, 2), 20), (fcfg(3, 2, H, 2), 32)]
+    for n in range(1, 7):
+        t += [(fcfg(n, 0, H if n % 2 else F, 0), 10)]
     t.sort(key=lambda x: -x[1])
     return [c for c, _ in t]
 
@@ -144,6 +186,8 @@ def _segments():
     tree = ast.parse(text)
     found = []
     for node in tree.body:
+        if isinstance(node, ast.FunctionDef) and node.name in ENCODED:
+            found.append((f'{SRC}:{node.lineno} {node.name}', ast.get_source_segment(text, node)))
         if isinstance(node, ast.ClassDef) and node.name in ENCODED:
             want = ENCODED[node.name]
             if want is None:
@@ -160,7 +204,22 @@ def _segments():
     return found
 
 
-def _classify(reason):
+def _classify(reason, d=None):
+    if d is not None and 'fault_index' in d:
+        if reason.startswith('final dataset built from'):
+            got, exp = (eval(x, {'__builtins__': {}}) for x in reason[len('final dataset built from '):].split(', expected '))
+            missing = [x for x in exp if x not in got]
+            return ('combiner-plan-loses-input-after-failed-step' if missing
+                    else 'combiner-plan-duplicates-input-after-failed-step')
+        if 'not terminating' in reason:
+            return 'combiner-plan-does-not-terminate-after-failed-step'
+        if reason.startswith('raised'):
+            return 'combiner-plan-raises-after-failed-step'
+        if reason.startswith('0 datasets written to the output path'):
+            return 'combiner-plan-loses-input-after-failed-step'  # the plan ended with every input gone
+        if 'datasets written to the output path' in reason:
+            return 'combiner-plan-output-count-after-failed-step'
+        return 'combiner-plan-misaligns-sample-names-after-failed-step'
     if reason.startswith('not finished after'):
         return 'combiner-plan-does-not-terminate'
     if reason.startswith('raised'):
@@ -174,6 +233,16 @@ def _classify(reason):
 
 def _replay_dict(c, args):
     n, m = c['N'], c['M']
+    if c.get('fault'):
+        return {
+            'n_gvcfs': n,
+            'vds_sizes': [args[f's{i}'] for i in range(m)],
+            'branch_factor': c['bf'] or args['bf'],
+            'batch_size': args['bs'],
+            'fault_index': args['fi'],
+            'fault_kind': bool(args['kind']),
+            'external_header': bool(c['hdr']),
+        }
     return {
         'n_gvcfs': n,
         'vds_sizes': [args[f's{i}'] for i in range(m)],
@@ -186,8 +255,18 @@ def _replay_dict(c, args):
 
 def _execute(d):
     mod = importlib.import_module('harness.C38_plan')
-    return mod.execute(d['n_gvcfs'], list(d['vds_sizes']), d['branch_factor'], d['batch_size'], list(d['resume']),
-                       d.get('external_header', True))
+    if 'fault_index' in d:
+        ok, why, info = mod.fault_execute(d['n_gvcfs'], list(d['vds_sizes']), d['branch_factor'], d['batch_size'],
+                                          d['fault_index'], bool(d['fault_kind']), d.get('external_header', True))
+        note = ''
+        if info.get('fired'):
+            note = (f" [engine call #{info['fired'][0]} ({info['fired'][1]}) raised "
+                    f"{'a BaseException' if d['fault_kind'] else 'OSError'} inside run(); resumed with "
+                    f"load_combiner(save_path).run()]")
+        return ok, why, note
+    ok, why, steps, loads = mod.execute(d['n_gvcfs'], list(d['vds_sizes']), d['branch_factor'], d['batch_size'],
+                                        list(d['resume']), d.get('external_header', True))
+    return ok, why, ''
 
 
 def run(R, cfgs=None, pct=None):
@@ -200,11 +279,14 @@ def run(R, cfgs=None, pct=None):
     R.bounds.update({
         'C38b_shapes': [T.cid(c) for c in cfgs],
         'C38b_inputs_total': f"1..{max(c['N'] + c['M'] for c in cfgs)}",
-        'C38b_branch_factor': '2..4', 'C38b_gvcf_batch_size': '1..3',
+        'C38b_branch_factor': '2..4',
+        'C38b_gvcf_batch_size': '1..3 (1..1 in shapes whose id ends in q1: vds-only fault shapes of the quick tier)',
         'C38b_vds_n_samples': 'symbolic 1..smax, smax per shape (the m<k> suffix of the shape id; 40 without resume, '
                               'small with resume because the saved JSON text realises every number)',
         'C38b_resume': 'one symbolic bool per possible step (N+M of them) in shapes whose id has "r"; none in "s" shapes',
         'C38b_step_bound': 'inputs + 8 (more steps = non-termination)',
+        'C38b_fault': 'shapes whose id has "f": real run(), one fault at engine call fi (symbolic 0..999, past the last call = '
+                      'no fault), kind symbolic (OSError / BaseException), then load_combiner(save_path).run()',
         'C38b_per_condition_timeout_s': pct,
     })
     tb = R.extra.setdefault('trusted_base', [])
@@ -226,15 +308,16 @@ def run(R, cfgs=None, pct=None):
     gm = chrun.gen_module('C38_plan_conditions', T.source(cfgs))
     targets = []
     for c in cfgs:
-        targets += [f'{gm}.check{T.cid(c)}', f'{gm}.reach{T.cid(c)}']
+        targets += [f'{gm}.{x}' for x in T.targets(c)]
     t0 = time.time()
     res = chrun.run(targets, per_condition_timeout=pct, hard_factor=1.0, workers=WORKERS)
     R.log(f'[C38b] {len(targets)} CrossHair conditions in {time.time() - t0:.0f}s wall')
     for c in cfgs:
         i = T.cid(c)
-        rv, rmsg, rdt = res[f'{gm}.reach{i}']
+        chk, twin = T.targets(c)
+        rv, rmsg, rdt = res[f'{gm}.{twin}']
         reach = rv == 'refuted'
-        v, msg, dt = res[f'{gm}.check{i}']
+        v, msg, dt = res[f'{gm}.{chk}']
         name = f'combiner plan [{T.describe(c)}]: terminates, one output, every input exactly once'
         if v == 'confirmed':
             R.ob(name, 'discharged' if reach else 'not_discharged', dt, {'twin': rmsg[-200:], 'twin_verdict': rv},
@@ -244,10 +327,10 @@ def run(R, cfgs=None, pct=None):
             if args is None:
                 raise HarnessError(f'cannot parse CrossHair counterexample: {msg}')
             d = _replay_dict(c, args)
-            ok, why, steps, loads = _execute(d)
+            ok, why, note = _execute(d)
             if ok:
                 raise HarnessError(f'CrossHair counterexample does not reproduce concretely: {msg}')
-            st = R.finding(_classify(why), f'VariantDatasetCombiner with {d}: {why}', d)
+            st = R.finding(_classify(why, d), f'VariantDatasetCombiner with {d}: {why}{note}', d)
             R.ob(name, st, dt, {'cex': d, 'why': why}, nontrivial=True)
         else:
             R.ob(name, 'not_discharged', dt, {'crosshair': msg[-300:]})
@@ -256,9 +339,9 @@ def run(R, cfgs=None, pct=None):
 
 def replay(d):
     try:
-        ok, why, steps, loads = _execute(d)
+        ok, why, note = _execute(d)
     except Exception as e:
         print('raised', type(e).__name__, e)
         return 1
-    print('property holds' if ok else f'property violated: {why}', d)
+    print('property holds' if ok else f'property violated: {why}{note}', d)
     return 0 if ok else 1
